@@ -14,6 +14,8 @@ import Dhcp.Driver.ClientLTS
       context.DeadlineExceeded; first event of its instant), clo (Close).
       `s` = applied after quiescence, `n` = applied right away, `w` = handed over
       by the peer from inside the WriteTo made at that instant.
+      optional `werr=<k>`: the k-th WriteTo of the call (0-based) fails while the
+      client is open (outcome `werr` at that instant, k transmissions).
       optional `cerr=<1|2>`: the conn's Close reports an error (1: but closes,
       2: and stays open - then Close cannot return).
       Output: `ok <alt> | <alt> | …`, every result the model allows, each
@@ -62,6 +64,7 @@ def showOutcome : Timed.Outcome → String
   | .resp i => s!"resp{i}"
   | .noResp => "noresp"
   | .ctxErr => "ctx"
+  | .writeErr => "werr"
 
 def showResult (close : Option Int) (r : Timed.Result) : String :=
   let ret := match r.ret with
@@ -79,7 +82,10 @@ def stepTimed (args : List String) : Option String := do
   let H ← (← f "H").toInt?
   let m ← f "m"
   let evs ← parseEvents (m == "nil") (← f "ev")
-  let rs := Timed.runCall T n evs H
+  -- werr=<k>: the k-th WriteTo fails with the client open
+  let rs := match (f "werr").bind String.toNat? with
+    | some k => Timed.dedup ((Timed.runCall T n evs H).map (Timed.applyWriteFault T k))
+    | none => Timed.runCall T n evs H
   -- cerr=2: the conn's Close fails and leaves the conn open: the receive loop cannot end, Close waits
   let cl := if f "cerr" == some "2" then none
             else (Timed.closeTime evs).bind (fun t => if t ≤ H then some t else none)
